@@ -197,8 +197,8 @@ func init() {
 				}
 				dir = d
 				e.B = 0 // TLC's integers are 32 bits wide; the identity has done its job
-			case "NcSet":
-				// the time left until the deadline, as the library computed it, in classes: 0 cleared, 1 already passed (the library
+			case "NcSetBegin":
+				// the time left until the deadline when SetDeadline began, in classes: 0 cleared, 1 already passed (the library
 				// arms its timer with 1 ns), 3 more than 5 s ahead (cannot pass within an execution), 2 ahead and will pass
 				dir = e.A
 				switch {
@@ -208,6 +208,9 @@ func init() {
 				default:
 					e.B = 2
 				}
+			case "NcSet":
+				dir = e.A
+				e.B = 0 // the class travels with NcSetBegin
 			default:
 				dir = e.A
 			}
